@@ -133,8 +133,8 @@ CHECKS["C11"] = {
             "inner declarations, subtype elements, xsi:type on elements, every literal spelling, prov:other, several entities in "
             "hadMember, re-binding bundles) and the shipped XML files are loaded, re-written in XML (force_types off/on) and in "
             "JSON and re-loaded (strict content equal), and compared with the independent reader XmlSpec.read (partial: "
-            "stability of whole documents is decided per run; boundness of names and single-valuedness of formal attributes of "
-            "a loaded document are premises).",
+            "stability of documents with bundles and of PROV-XML documents is decided per run; boundness of names and "
+            "single-valuedness of formal attributes of a loaded document are premises of C11_json_stable).",
     "design_ref": "DESIGN.md §5 C11, §10",
     "technique": "Coq well-formedness proof of the decoder + differential correspondence on foreign trees + spec-reader oracle",
 }
@@ -343,7 +343,12 @@ CHECKS["C11"]["text"] = CHECKS["C11"]["text"].replace(
     "record of the document it builds has an attribute dictionary keyed by pairwise different URIs whose value lists are sets "
     "(C11_json_decoded_shape: an invariant of add_attributes whichever way it ends, threaded through the whole reader — two of "
     "the premises of the round-trip theorems become theorems for loaded documents) and holds only stored-form values, each of "
-    "which is written and re-loaded as itself once its names are bound (C11_json_decoded_values_reload); the PROV-XML reader is "
+    "which is written and re-loaded as itself once its names are bound (C11_json_decoded_values_reload), and a kind the writer can "
+    "name (C11_json_decoded_kinds); with these, C11_json_stable: for every tree the reader accepts, the bundle-free document d it "
+    "builds, written and loaded again, is the same records (kind, identifier, every attribute value, in the writer's grouping) — "
+    "under premises about d only: plain manager, one value per formal attribute, names that re-read as themselves in the manager "
+    "the prefix block gives (what findings C01-F1..F3 and C05-F1 are about), valid times, floats in the float table; non-vacuity "
+    "C11_json_stable_applies; the PROV-XML reader is "
     "modelled above record level too (XmlReadDoc.xml_read_document: fresh document, prov:other skipped, bundleContent -> "
     "document.bundle(identifier read in the element's scope) and its children, record elements) and tied per run to "
     "ProvDocument.deserialize on whole foreign and library-written texts (document built with every manager table, or error "
